@@ -3,6 +3,7 @@
 from __future__ import annotations
 
 import abc
+import builtins
 import contextlib
 import copy
 import enum
@@ -56,6 +57,23 @@ _EMPTY_METADATA_SINGLETON = types.MappingProxyType({})
 _SENTINEL = object()
 
 _DEFAULT_ON_SETATTR = setters.pipe(setters.convert, setters.validate)
+
+# The builtins the generated methods refer to by name.  They are bound
+# explicitly so that a module-level name shadowing a builtin in the defining
+# module cannot change what the generated code does.
+_GENERATED_CODE_BUILTINS = {
+    name: getattr(builtins, name)
+    for name in (
+        "AttributeError",
+        "BaseException",
+        "NotImplemented",
+        "__import__",
+        "getattr",
+        "hash",
+        "id",
+        "object",
+    )
+}
 
 
 class _Nothing(enum.Enum):
@@ -776,6 +794,12 @@ class _ClassBuilder:
         """
         script = "\n".join([snippet[0] for snippet in self._script_snippets])
         globs = {}
+        if self._cls.__module__ in sys.modules:
+            # This makes typing.get_type_hints(CLS.__init__) resolve string
+            # types.  It comes first: whatever the defining module happens to
+            # bind must never replace the names the generated code relies on.
+            globs.update(sys.modules[self._cls.__module__].__dict__)
+        globs.update(_GENERATED_CODE_BUILTINS)
         for _, snippet_globs, _ in self._script_snippets:
             globs.update(snippet_globs)
 
@@ -2020,10 +2044,6 @@ def _make_init_script(
         has_cls_on_setattr,
         "__attrs_init__" if attrs_init else "__init__",
     )
-    if cls.__module__ in sys.modules:
-        # This makes typing.get_type_hints(CLS.__init__) resolve string types.
-        globs.update(sys.modules[cls.__module__].__dict__)
-
     globs.update({"NOTHING": NOTHING, "attr_dict": attr_dict})
 
     if needs_cached_setattr:
